@@ -113,8 +113,18 @@ impl Target {
 }
 impl Drop for Target {
     fn drop(&mut self) {
-        unsafe { libc::kill(-self.pid, libc::SIGKILL); libc::kill(self.pid, libc::SIGKILL); }
-        let _ = self.child.wait();
+        // a thread that the writer under test left attached is traced by THIS process: its exit has to be reaped by
+        // us (the tracer) before the thread-group leader can be waited for
+        let tids: Vec<i32> = std::fs::read_dir(format!("/proc/{}/task", self.pid)).map(|rd| rd.flatten().filter_map(|e| e.file_name().to_string_lossy().parse().ok()).collect()).unwrap_or_default();
+        unsafe {
+            for t in &tids { libc::ptrace(libc::PTRACE_DETACH, *t, 0, 0); }
+            libc::kill(-self.pid, libc::SIGKILL); libc::kill(self.pid, libc::SIGKILL);
+        }
+        for _ in 0..3000 {
+            unsafe { for t in &tids { if *t != self.pid { let mut st = 0; libc::waitpid(*t, &mut st, libc::__WALL | libc::WNOHANG); } } }
+            if let Ok(Some(_)) = self.child.try_wait() { break; }
+            std::thread::sleep(std::time::Duration::from_millis(1));
+        }
         let _ = std::fs::remove_file(&self.scen_path);
     }
 }
